@@ -350,6 +350,9 @@ def run(ctx):
                 if "id" in fields:
                     checks.insert(0, ["uniq", "IsUnique", "id"])
                 configs.append({"preset": preset, "header": 0, "fields": fields, "checks": checks})
+    # fixed data whose records end in a lone CR, read under 'any' (the reader has to look one character ahead), first fields of width 2 and 3
+    for fields in (["num", "note"], ["id", "kind"], ["kb", "ka"]):
+        configs.append({"preset": "fixed", "header": 0, "fields": fields, "checks": [], "line_delimiter": "any", "line_end": "\r"})
     for config in configs:
         file_based = config["preset"] in ("ods", "excel")
         depth = (2 if file_based else 4) if quick else (4 if file_based else 6)
